@@ -257,6 +257,10 @@ func c09Scenarios(tier string) []e1lib.Scenario {
 							}
 							c := base
 							c.Stage, c.Cancel, c.Stop, c.Stop2, c.Mode = st, cancel, stop, stop, "pure"
+							bound := bound
+							if s.par*s.k >= 8 {
+								bound = 2 // the cancel family multiplies the schedules; fmap at 3x3 did not finish with bound 3 in 20 min
+							}
 							switch st {
 							case "map", "fmap":
 								for _, mode := range []string{"try", "lift"} {
@@ -290,6 +294,6 @@ func c09Scenarios(tier string) []e1lib.Scenario {
 
 func propC09() drv.Property {
 	return table("C09",
-		"one case = one fork stage (Map, FMap, Filter, Partition, ForEach, Void; Pure, Try and, for the closure clauses, Lift functions) x worker count par in 1..3 (4) x input 1..k (par*k <= 6 quick, up to par 3 x k 3, par 2 x k 4, par 4 x k 2 thorough) x input capacity {0, k} x every failure / predicate pattern x consumers draining / absent / leaving x canceller absent or free x error channel read or never read; the user function contains a scheduling point, so in-flight calls complete in every order; every interleaving explored (state-cached, unbounded; preemption bound 3 when par*k >= 8); non-trivial = more than one distinct terminal outcome",
+		"one case = one fork stage (Map, FMap, Filter, Partition, ForEach, Void; Pure, Try and, for the closure clauses, Lift functions) x worker count par in 1..3 (4) x input 1..k (par*k <= 6 quick, up to par 3 x k 3, par 2 x k 4, par 4 x k 2 thorough) x input capacity {0, k} x every failure / predicate pattern x consumers draining / absent / leaving x canceller absent or free x error channel read or never read; the user function contains a scheduling point, so in-flight calls complete in every order; every interleaving explored (state-cached, unbounded; preemption bound 3 when par*k >= 8, 2 for the cancel / leave family at that size); non-trivial = more than one distinct terminal outcome",
 		append(commonAssumptions, "data races are invisible to a cooperative scheduler: the 'without data races' clause is covered by the auxiliary free-running -race pass only"), c09Scenarios)
 }
